@@ -11,6 +11,15 @@ NA = {
  "C16": "Liveness/progress of repeated sync over all graph pairs and overlaps is bounded only by runtime quantities; no sound static argument in reach.",
  "C21": "Invariants of index arithmetic (partition, swaps) over all operation sequences need value reasoning about indices, not code shape.",
 }
+def thorough_cfg(pid):
+    src = open(os.path.join(HERE, "rules", "props", pid + ".py")).read()
+    m = re.search(r"THOROUGH_CONFIGS = \[([^\]]*)\]", src)
+    extra = re.findall(r'"([a-z]+)"', m.group(1)) if m else []
+    if 'config="cas"' in src:
+        extra.append("cas")
+    return (" (thorough tier also: %s)" % ", ".join("`%s`" % e for e in extra)) if extra else ""
+
+
 PENDING = "check not built yet in this revision (static rule planned in DESIGN.md section 4)"
 checks = []
 na = []
@@ -32,9 +41,9 @@ for p in props:
             "level_claimed": {
                 "category": "other",
                 "text": "Static analysis: structural necessary conditions of the property, decided for every input/path from the resolved MIR of /repo's current source; the behavioural remainder is not decided by this family. " + decided,
-                "design_ref": "DESIGN.md section 4, %s" % pid,
+                "design_ref": "DESIGN.md section 4 (%s, plan) and section 10 (as built)" % pid,
             },
-            "level_note": "Trusted: rustc MIR construction, the extractor (driver/), audited tables in rules/props/%s.py (each entry has a stated reason), external crates not descended into, feature configuration `main` (see rules/core/extract.py)." % pid,
+            "level_note": "Trusted: rustc MIR construction, the extractor (driver/), audited tables in rules/props/%s.py (each entry has a stated reason), external crates not descended into, feature configuration `main`%s (see rules/core/extract.py); for K4 rules the frozen audit fingerprints in rules/tables/k4_fingerprints.json." % (pid, thorough_cfg(pid)),
             "technique": getattr(mod, "TECHNIQUE", "static analysis: repo-specific MIR rules (CFG dominance/edge polarity, who-may-call, may-panic reachability, def-use provenance, table agreement)"),
         })
     elif pid in NA:
